@@ -133,6 +133,6 @@ contract(M + "string_replace_map",
     },
     raises=[],
     domain=dict(line="list(token_lines(['1.0e-3', '2.5e3', 'x', 'f', '(', ')', ',', '+', \"'a(b'\", ' ', '4.0d2*y'], N)) + list(templated())", lower="[False]",
-                _size=dict(quick=5, thorough=7)),
+                _size=dict(quick=5, thorough=6)),
     serves=["C01", "C02", "C03"],
 )
